@@ -77,7 +77,7 @@ CHECKS = {
         "design_ref": "DESIGN.md section 3 / C09",
         "note": NOTE_COMMON + "std VecDeque is replaced under cfg(kani) by a fixed-capacity ring model (capacity overflow is a reported failure); "
         "per-loop unwind bounds for the `for j in 0..buff.len()` loops are discovered from the goto binary, unwinding assertions stay on. "
-        "Bounds: (w,m) in {(1,1),(2,1),(2,2),(3,2),(3,3),(4,2),(5,3)}, every L = 0..=w+2 (w+3 for w <= 2) (quick); L <= w+3 and + (4,1),(6,3),(6,5),(8,5),(31,31),(32,31) (thorough).",
+        "Bounds: (w,m) in {(1,1),(2,1),(2,2),(3,2),(3,3),(4,2),(5,3)}, every L = 0..=w+2 (w+1 for w >= 4), step (w,m,N) up to (3,3,6) (quick); L <= w+3, + (4,1),(6,3),(6,5),(8,5),(31,31),(32,31), step up to (31,31,33) (thorough).",
         "technique": TECH,
     },
     "C11": {
@@ -93,7 +93,7 @@ CHECKS = {
         "column, (x,y) is bit-exactly the chaos-game end point of the column's k-mer text (oracle list evaluated by the compiler) for symbolic square size, f equals "
         "the oracle's count or correctly rounded count/total, and (x,y) is equal across two different records.",
         "design_ref": "DESIGN.md section 3 / C12",
-        "note": NOTE_COMMON + "Bounds: k = 1 all lengths 0..=3, k = 2 length 3 (quick); k <= 3 lengths 0..=k+3 (thorough, k >= 2 optional). Row order/threads/batching outside.",
+        "note": NOTE_COMMON + "Bounds: k = 1, lengths 0, 1, 3 (quick); k <= 3 lengths 0..=k+3 (thorough, k >= 2 optional: about 10 min and 8-10 GB per instance). Row order/threads/batching outside.",
         "technique": TECH,
     },
     "C13": {
